@@ -82,12 +82,24 @@ def _strlen(ex, st, args, n):
     return slen(args[0])
 
 
-@R.model('memcmp', "for a constant length <= 32: zero iff the bytes are equal (sign not modelled)")
+@R.model('memcmp', "zero iff the bytes are equal (sign not modelled): for a constant length <= 32; for a symbolic "
+                   "length, exactly that for the lengths 0, 1, 2, 4, 8, 16 and an arbitrary result for any other length")
 def _memcmp(ex, st, args, n):
     a, b, cnt = args
     k = z3.simplify(cnt)
-    if not z3.is_bv_value(k) or k.as_long() > 32:
-        raise NotSupported("memcmp with non-constant or long length")
+    if not z3.is_bv_value(k):
+        # a symbolic length (a ctype's size): decided for the sizes primitive types have; any other length leaves the
+        # result arbitrary (an over-approximation: nothing can be proved from it, refutations need such a length)
+        d = ex.fresh('memcmp', z3.BitVecSort(32))
+        for size in (0, 1, 2, 4, 8, 16):
+            eq = z3.And(*[z3.Select(st.raw, a + BV(i, 64)) == z3.Select(st.raw, b + BV(i, 64)) for i in range(size)]) \
+                if size else z3.BoolVal(True)
+            st.assume(z3.Implies(cnt == size, (d == 0) == eq))
+        if ex.access_regions is not None:
+            raise NotSupported("memcmp with a symbolic length under memory-safety obligations")
+        return d
+    if k.as_long() > 32:
+        raise NotSupported("memcmp with a long constant length")
     eq = z3.And(*[z3.Select(st.raw, a + BV(i, 64)) == z3.Select(st.raw, b + BV(i, 64)) for i in range(k.as_long())])
     d = ex.fresh('memcmp', z3.BitVecSort(32))
     st.assume((d == 0) == eq)
